@@ -8,6 +8,7 @@ Compute the maximum correlation:
 
 import numpy as np
 
+from ..algorithms.prune_expand import expanded_samplespace
 from ..exceptions import ditException
 from ..helpers import normalize_rvs
 
@@ -20,6 +21,15 @@ __all__ = (
 
 
 svdvals = lambda m: np.linalg.svd(m, compute_uv=False)
+
+
+def _second_singular_value(Q):
+    """
+    The second largest singular value of `Q`; zero when there is only one
+    (a variable with a single symbol is independent of everything).
+    """
+    svs = svdvals(Q)
+    return svs[1] if len(svs) > 1 else 0.0
 
 
 def conditional_maximum_correlation_pmf(pmf):
@@ -44,7 +54,7 @@ def conditional_maximum_correlation_pmf(pmf):
     Q = np.where(pmf, pXYgZ / (np.sqrt(pXgZ) * np.sqrt(pYgZ)), 0)
     Q[np.isnan(Q)] = 0
 
-    rho_max = max(svdvals(np.squeeze(m))[1] for m in np.dsplit(Q, Q.shape[2]))
+    rho_max = max(_second_singular_value(m[:, :, 0]) for m in np.dsplit(Q, Q.shape[2]))
 
     return rho_max
 
@@ -69,7 +79,7 @@ def maximum_correlation_pmf(pXY):
     Q = pXY / (np.sqrt(pX) * np.sqrt(pY))
     Q[np.isnan(Q)] = 0
 
-    rho_max = svdvals(Q)[1]
+    rho_max = _second_singular_value(Q)
 
     return rho_max
 
@@ -118,6 +128,8 @@ def maximum_correlation(dist, rvs=None, crvs=None, rv_mode=None):
     else:
         dist = dist.copy().coalesce(rvs)
 
+    # The reshape below needs the full Cartesian product of the alphabets.
+    dist = expanded_samplespace(dist, union=False)
     dist.make_dense()
     pmf = dist.pmf.reshape(list(map(len, dist.alphabet)))
 
